@@ -15,20 +15,29 @@ int zvt_lock(pthread_mutex_t* m); int zvt_unlock(pthread_mutex_t* m); int zvt_wa
 #define ZSTD_pthread_mutex_unlock(a) zvt_unlock(a)
 #define ZSTD_pthread_cond_wait(a, b) zvt_wait((a), (b))
 #define ZSTD_pthread_mutex_init(a, b) zvt_minit(a)
+#include "zvh_train_fill.h"
 #include "cover.c"   /* found through -I<repo>/… (tools/build.py), so that ZV_REPO can point at another checkout */
 
 extern void zvt_event(const char* fmt, unsigned long long a, unsigned long long b);
 extern int zvt_is_dispatcher(void); extern void zvt_perturb(void);
-static pthread_mutex_t* g_bm; static size_t g_seenLive;
-int zvt_minit(pthread_mutex_t* m) { g_bm = m; g_seenLive = 0; zvt_event("best-init\n", 0, 0); return pthread_mutex_init(m, NULL); }
+static pthread_mutex_t* g_bm; static size_t g_seenLive; extern size_t zvt_grow, zvt_cands; static void* g_heldDict; static size_t g_heldSize, g_heldCsize;
+int zvt_minit(pthread_mutex_t* m) { g_bm = m; g_seenLive = 0; g_heldDict = NULL; g_heldSize = 0; g_heldCsize = (size_t)-1; zvt_event("best-init\n", 0, 0); return pthread_mutex_init(m, NULL); }
 int zvt_lock(pthread_mutex_t* m) { zvt_perturb(); return pthread_mutex_lock(m); }
 static void snap(pthread_mutex_t* m, int waitReturn) {
     if (m == g_bm) { COVER_best_t* b = (COVER_best_t*)((char*)m - offsetof(COVER_best_t, mutex)); size_t const live = b->liveJobs;
         if (live == g_seenLive + 1) zvt_event(zvt_is_dispatcher() ? "dispatch\n" : "start-by-worker\n", 0, 0);
-        else if (live + 1 == g_seenLive) zvt_event("finish %llu\n", (unsigned long long)b->compressedSize, 0);
+        else if (live + 1 == g_seenLive) { zvt_event("finish %llu\n", (unsigned long long)b->compressedSize, 0);
+            /* coverage of the holder's buffer management (not part of the event trace): a candidate was taken (buffer or size changed) / it was larger than the one held */
+            if (b->dict && b->compressedSize != g_heldCsize) { zvt_cands++; if (g_heldDict && b->dictSize > g_heldSize) zvt_grow++; }
+            g_heldDict = b->dict; g_heldSize = b->dictSize; g_heldCsize = b->compressedSize; }
         else if (live != g_seenLive) zvt_event("jump %llu %llu\n", g_seenLive, live);
         if (waitReturn) zvt_event(live == 0 ? "waitret\n" : "waitret-live %llu\n", live, 0);
         g_seenLive = live; } }
 /* COVER_best_wait is the only place that unlocks without having changed the counter while the dispatcher holds the mutex */
 int zvt_unlock(pthread_mutex_t* m) { int const isWait = (m == g_bm) && zvt_is_dispatcher() && ((COVER_best_t*)((char*)m - offsetof(COVER_best_t, mutex)))->liveJobs == g_seenLive; snap(m, isWait); return pthread_mutex_unlock(m); }
 int zvt_wait(pthread_cond_t* c, pthread_mutex_t* m) { int r = pthread_cond_wait(c, m); if (m == g_bm) { COVER_best_t* b = (COVER_best_t*)((char*)m - offsetof(COVER_best_t, mutex)); (void)b; } return r; }
+
+/* function-level access for the tie of COVER_ctx_init (static): error code, or 0 with the d-mer count (suffixSize) the build loops will use */
+size_t zvt_cover_ctx(const void* sb, const size_t* ss, unsigned nb, unsigned d, double split, size_t* nbDmers) {
+    COVER_ctx_t ctx; size_t const r = COVER_ctx_init(&ctx, sb, ss, nb, d, split);
+    if (!ZSTD_isError(r)) { *nbDmers = ctx.suffixSize; COVER_ctx_destroy(&ctx); } return r; }
